@@ -76,12 +76,17 @@ COMPANION = {"max-clients": ("client-whitelist", "127.0.0.1-127.0.0.9"), "client
 def run_case(binary, proto, scratch, idx, case):
     setting, kind = case["setting"], case["kind"]
     base = os.path.join(scratch, "case%d" % idx)
-    dirs = {k: os.path.join(base, k) for k in ("home", "xdg", "cwd", "rootA", "rootB", "files")}
+    # (root directories with characters an INI parser may take for a comment sign)
+    dirs = {k: os.path.join(base, {"rootA": "rootA#1", "rootB": "root;B"}.get(k, k)) for k in ("home", "xdg", "cwd", "rootA", "rootB", "files")}
     for d in dirs.values():
         os.makedirs(d)
     for name, d in (("markerA.txt", "rootA"), ("markerB.txt", "rootB"), ("cwd.txt", "cwd")):
         open(os.path.join(dirs[d], name), "w").write(name)
     vals = concrete(setting, kind, dirs)
+    if case.get("variant", idx) % 3 == 0:
+        # directories in the working directory that happen to be named like the sub-commands
+        for nm in ("server", "make-iso", "decrypt"):
+            os.makedirs(os.path.join(dirs["cwd"], nm), exist_ok=True)
     vidx = case.get("variant", idx)      # which malformed value / companion: fixed per case, so that a confirmation run repeats it
     vals["BAD"] = bad_value(setting, vidx, dirs)
     vals["EMPTY"] = ""
